@@ -7,7 +7,7 @@ from ..flow import Aff, Facts, cmp_to_constraints
 
 META = {
     'design_ref': 'DESIGN.md §5 C06',
-    'technique': 'bounded-read proof (path enumeration on the CFG of the normalised function -- helpers inlined, aliases substituted -- with Fourier-Motzkin entailment of 0 <= size <= end-cur at every call on the underlying file), dominance/post-dominance rules for the seek-before / tell-after discipline, table agreement of the header cuts (slices or struct formats) with ar(5), parity evaluation of the padding skip over sentinel-loop idioms, seek/tell interpreted on integer-affine values with linear path facts for each whence value (sa.affinterp), truthiness of the loop sentinel; read(size) interpreted on affine values per region of (size, end - cur) against the in-memory-file reference; iterator interpreted on a three-line member; readlines(hint) interpreted against io.IOBase.readlines; result of seek on affine values; the member-name expression of the header paths evaluated on symbolic GNU / BSD name fields; every raising path of seek implies a target in front of the member; histories of up to three calls on two members behind one model file object interpreted against io.BytesIO; the private attributes of the member class are recognised by role (the file object whose seek is called, the cursor it is positioned to, start / end / size where the member is made) and renamed to the vocabulary of the rules',
+    'technique': 'bounded-read proof (path enumeration on the CFG of the normalised function -- helpers inlined, aliases substituted -- with Fourier-Motzkin entailment of 0 <= size <= end-cur at every call on the underlying file), dominance/post-dominance rules for the seek-before / tell-after discipline, table agreement of the header cuts (slices or struct formats) with ar(5), parity evaluation of the padding skip over sentinel-loop idioms, seek/tell interpreted on integer-affine values with linear path facts for each whence value (sa.affinterp), truthiness of the loop sentinel; read(size) interpreted on affine values per region of (size, end - cur) against the in-memory-file reference; iterator interpreted on a three-line member; readlines(hint) interpreted against io.IOBase.readlines; result of seek on affine values; the member-name expression of the header paths evaluated on symbolic GNU / BSD name fields; every raising path of seek implies a target in front of the member; histories of up to three calls on two members behind one model file object interpreted against io.BytesIO; the private attributes of the member class are recognised by role (the file object whose seek is called, the cursor it is positioned to, start / end / size where the member is made) and renamed to the vocabulary of the rules; the archive walk interpreted through the constructor of the archive class on a model archive of five members (sizes odd, even, zero; two names twice), read through the public accessors; a header whose name has multi-byte characters',
     'level_text': 'Static decision on every path of ArMember.read/readline/readlines/seek/tell and of the header walk: no call can '
                   'return a byte outside the member, every read is preceded by a seek to the member\'s own cursor and followed by a '
                   'cursor update, the header fields are cut at the ar(5) offsets, odd sizes skip one padding byte, seek/tell '
